@@ -18,4 +18,11 @@ uint32_t ref_crc32c_remainder(const uint8_t * data, size_t n, const uint8_t crc[
 /* The unique 4 bytes that make the remainder zero (for messages). */
 void ref_crc32c_expected(const uint8_t * data, size_t n, uint8_t crc[4]);
 
+/*
+ * The same remainder for the message head || blk^reps || tail, computed without visiting every bit of the
+ * repetitions: R(A || B) = R(A) * x^(8|B|) + B(x) (mod p), plain polynomial arithmetic over GF(2).
+ */
+uint32_t ref_crc32c_remainder_rep(const uint8_t * head, size_t nh, const uint8_t * blk, size_t nb, uint64_t reps,
+    const uint8_t * tail, size_t nt, const uint8_t crc[4]);
+
 #endif /* !REF_CRC32C_H_ */
